@@ -15,7 +15,7 @@ CHECKS = {
    note=E1_NOTE),
  "C04": dict(engine="E1 stub-cycle", level="exploration", ref="DESIGN.md §5 C04",
    technique="runtime monitoring: posted target lists vs. reported loads, arithmetic capacity oracle; boundary-biased workloads",
-   text="Same engine with loads at limit-1/limit/limit+1 and directed families for every placement path (first-fit, weighted, head relief at each threshold, process relief, scale-down, several placements on one shard, oversized targets). Oracle: reported load + sizes of everything placed in the cycle < each configured limit; oversized targets are never assigned and never the only reason for a scale request above the current count.",
+   text="Same engine with loads at limit-1/limit/limit+1 and directed families for every placement path (first-fit, weighted, head relief at each threshold, process relief, scale-down, several placements on one shard, oversized targets). Oracle: reported load + sizes of everything placed in the cycle < each configured limit; oversized targets are never assigned and never the only reason for a scale request above the current count (judged for unassigned oversized targets and for oversized targets sitting on overloaded shards).",
    note=E1_NOTE + " Size attributed to a moved target = smallest report among in-sync holders (weakest sound reading)."),
  "C05": dict(engine="E1 stub-cycle", level="exploration", ref="DESIGN.md §5 C05",
    technique="runtime monitoring: hand-over predicate (README's 3 scrapes) over recorded posts and scripted scrape counts",
@@ -38,8 +38,8 @@ E3_NOTE = ("Trusted: the harness' in-memory / raw-TCP targets and its reading of
 
 CHECKS.update({
  "C09": dict(engine="E3 sidecar", level="fault_enumeration", ref="DESIGN.md §5 C09",
-   technique="fault injection + state monitor: store write cut after every byte offset via RLIMIT_FSIZE in a child process, SIGKILL of the real binary, fresh Load() compared with previous/new assignment",
-   text="The fault space (pair of consecutive assignments x byte offset at which the store write stops) is finite and swept: thorough enumerates every offset for every ordered pair of 8 assignment shapes, quick every offset for four pairs and strided for the rest, plus the old-file-name fall-back path and SIGKILLs of the real `kvass sidecar` binary mid-update followed by a restart of the binary. Oracle: the next start succeeds and resumes exactly the previous or the new assignment (deep JSON equality incl. idle-since), the new one if the update was acknowledged.",
+   technique="fault injection + state monitor: store write cut after every byte offset via RLIMIT_FSIZE in a child process, process killed inside the write via strace signal injection, SIGKILL of the real binary, repeated fresh Load() compared with previous/new assignment",
+   text="The fault space (pair of consecutive assignments x byte offset at which the store write stops) is finite and swept: thorough enumerates every offset for every ordered pair of 8 assignment shapes, quick every offset for four pairs and strided for the rest, plus the old-file-name fall-back path, plus a sweep in which the updating process is KILLED inside the store write (strace-injected SIGKILL, no clean-up code runs) followed by three restarts and an acknowledged follow-up update, plus SIGKILLs of the real `kvass sidecar` binary mid-update followed by a restart of the binary. Oracle: the next start succeeds and resumes exactly the previous or the new assignment (deep JSON equality incl. idle-since), the new one if the update was acknowledged.",
    note=E3_NOTE + " A write cut by RLIMIT_FSIZE is taken to leave the disk as a kill / full disk at that byte would; fsync / power-loss semantics of the file system are out of scope."),
  "C10": dict(engine="E3 sidecar", level="exploration", ref="DESIGN.md §5 C10",
    technique="runtime monitoring against an executable reference model of (status map, idle-since) after every operation",
@@ -90,7 +90,7 @@ CHECKS.update({
    note="Trusted: the harness' feeding of the discovery channel (what the Prometheus discovery manager would send) and porcupine v1.3.0. Updates and reloads are issued by one writer: update-reload races are outside the property. Held = held on the observed histories; porcupine timeout = inconclusive."),
  "C18": dict(engine="E6 kubernetes fake", level="exploration", ref="DESIGN.md §5 C18",
    technique="runtime monitoring on a client-go fake clientset: returned shards and the recorded API actions / objects judged; exhaustive sweep of the bounded parameter grid",
-   text="Every combination of current and requested replica count 0..6, 0..2 claim templates, deletion flag, six pod-list orders and readiness masks (thorough: every subset) is executed against the real ReplicasManager / shard manager on a fake clientset loaded with claims for all ordinals of two StatefulSets and decoys with similar names. Shards must come in ordinal order with the right URL and readiness; a scale change must be exactly one update to the requested value (none if unchanged); deleted claims must be exactly those of removed ordinals when deletion is on and none otherwise; a StatefulSet in a rolling update is skipped.",
+   text="Every combination of current and requested replica count 0..12 (two-digit ordinals included), 0..2 claim templates, deletion flag, six pod-list orders and readiness masks (thorough: every subset) is executed against the real ReplicasManager / shard manager on a fake clientset loaded with claims for all ordinals of two StatefulSets and decoys with similar names. Shards must come in ordinal order with the right URL and readiness; a scale change must be exactly one update to the requested value (none if unchanged); deleted claims must be exactly those of removed ordinals when deletion is on and none otherwise; a StatefulSet in a rolling update is skipped.",
    note="Trusted: the client-go fake clientset as stand-in for the API server. Exhaustive within the stated bounds only; foreign pods, missing pods and nil replica counts are outside the property's quantifier."),
  "C20": dict(engine="E5 discovery/explorer", level="exploration", ref="DESIGN.md §5 C20",
    technique="runtime monitoring: per-target probe-lifecycle automaton over request events recorded at loopback targets, polling monitor on Explore.Get, POST monitor on a stub shard behind the real coordinator; race-detector pass",
@@ -107,11 +107,11 @@ E2_NOTE = ("Trusted: the simulated Prometheus (re-reads the generated file with 
 CHECKS.update({
  "C03": dict(engine="E2 closed loop", level="exploration", ref="DESIGN.md §5 C03",
    technique="runtime monitoring of a closed loop: convergence/stability predicate over sidecar API snapshots after every cycle, per-cycle scale-up obligation monitor",
-   text="Generated worlds (limits, min/max, three idle-time modes, residue of head series, late pods, initial placements incl. overloaded shards, duplicates and pending transfers written into the stores) run a perturbed phase (growth, targets added/removed, uneven scrape rounds) and then a quiet phase in which the bounded restatement of the property must hold: converged and unchanged for 5 cycles within B = 10+4T+3*8 cycles. Every cycle is additionally checked for the scale-up obligation.",
+   text="Generated worlds (limits, min/max, three idle-time modes, residue of head series, late pods, initial placements incl. overloaded shards, duplicates, pending transfers and leftovers of interrupted transfer chains written into the stores) run a perturbed phase (growth, targets added/removed, uneven scrape rounds) and then a quiet phase in which the bounded restatement of the property must hold: converged and unchanged for 5 cycles within B = 10+4T+3*8 cycles. Every cycle is additionally checked for the scale-up obligation.",
    note=E2_NOTE),
  "C06": dict(engine="E2 closed loop", level="fault_enumeration", ref="DESIGN.md §5 C06",
    technique="fault injection at harness-owned boundaries of a closed loop, enumerated single-fault placements + sampled/enumerated pairs, bounded-recovery monitor",
-   text="On four fixed small base schedules every placement of one fault (11 variants x 8 cycles x 3 shards; quick: complete on the two smallest schedules, strided on the others) plus pairs (quick: 200 sampled; thorough: every pair on the two smallest schedules and 3000 sampled triples) is executed; after the perturbed phase the loop must return to the C03 converged state within the bound and stay there. The fault space of small configurations is finite, which makes enumeration the right level.",
+   text="On five fixed small base schedules every placement of one fault (11 variants x 8 cycles x 3 shards; quick: complete on three schedules, strided on the others) plus pairs (quick: 200 sampled; thorough: every pair on the two relief schedules and 3000 sampled triples) is executed; after the perturbed phase the loop must return to the C03 converged state within the bound and stay there. The fault space of small configurations is finite, which makes enumeration the right level.",
    note=E2_NOTE),
  "C19": dict(engine="E1 stub-cycle", level="exploration", ref="DESIGN.md §5 C19",
    technique="differential runtime monitoring: request traces of a replica run alone vs. next to a hostile replica (both orders), multi-cycle, real coordinator",
